@@ -4,6 +4,7 @@ import Proofs.Round
 import Proofs.FrameWalk
 import Proofs.FrameBack
 import Proofs.FrameTeam
+import Proofs.FrameTeamBack
 import Proofs.WFCheck
 /-!
 C06 — reported start and end frame exactly the booked work.
@@ -99,31 +100,29 @@ theorem task_framed_backward (e : Env) (wf : WF e) (σ : St) (t r : Nat)
     (hok : (scheduleTask e σ t).2 = true) : Framed e (scheduleTask e σ t).1 t r :=
   scheduleTask_framed_back e wf σ t r hinv hel hb hf hnd hclean hok
 
-/-! ### teams (forward mode) -/
+/-! ### teams (both modes) -/
 
-/-- **C06 for teams**: after scheduling ANY well-formed project, every forward (ASAP) team task — its allocation always
-    selects the same several members `sel`, pairwise different, of one common efficiency `η` — that is reported as scheduled
-    is framed on EVERY member `r`: there are a first slot `fb` and a last slot `last`, both carrying a booking of the task on
-    `r`, every booking of the task on `r` lies in `[fb, last]`, the reported start lies inside slot `fb` and the reported end
-    inside slot `last`. -/
+/-- **C06 for teams**: after scheduling ANY well-formed project, every team task — forward (ASAP) or backward (ALAP); its
+    allocation always selects the same several members `sel`, pairwise different, of one common efficiency `η` — that is
+    reported as scheduled is framed on EVERY member `r`: there are a first slot `fb` and a last slot `last`, both carrying a
+    booking of the task on `r`, every booking of the task on `r` lies in `[fb, last]`, the reported start lies inside slot
+    `fb` and the reported end inside slot `last` (in backward mode: exactly at its end). -/
 theorem team_framed (e : Env) (wf : WF e) (t : Nat) (sel : List Nat) (η : Rat) (hel : TeamElig e t sel η)
-    (r : Nat) (hr : r ∈ sel) (hs : ((runScenario e).tst t).scheduled = true)
-    (hf : ((runScenario e).tst t).forward = true) :
+    (r : Nat) (hr : r ∈ sel) (hs : ((runScenario e).tst t).scheduled = true) :
     ∃ fb last : Int, fb ≤ last ∧
       usageOf ((runScenario e).led.get r fb).usage t ≠ none ∧ usageOf ((runScenario e).led.get r last).usage t ≠ none ∧
       (∀ i, usageOf ((runScenario e).led.get r i).usage t ≠ none → fb ≤ i ∧ i ≤ last) ∧
       (∃ v, ((runScenario e).tst t).start = some v ∧ e.time fb ≤ v ∧ v ≤ e.time (fb + 1)) ∧
       (∃ v, ((runScenario e).tst t).stop = some v ∧ e.time last ≤ v ∧ v ≤ e.time (last + 1)) :=
-  runScenario_framedT e wf t sel η r hel hr
-    (runScenario_scheduled_done e t ⟨hel.leaf, hel.effort, hel.nomile⟩ hs) hf
+  runScenario_framedT_all e wf t sel η r hel hr
+    (runScenario_scheduled_done e t ⟨hel.leaf, hel.effort, hel.nomile⟩ hs)
 
 /-- the hypothesis `TeamElig` is met by the plain syntactic case (several different allocated resources of one positive
     efficiency, no alternatives): `C03.teamElig_of_alloc`; here for the environment elaborated from a project description -/
 theorem team_framed_elab (p : RawProj) (h : wfCheck (elaborate p).env = true) (t : Nat) (sel : List Nat) (η : Rat)
     (hel : TeamElig (elaborate p).env t sel η) (r : Nat) (hr : r ∈ sel)
-    (hs : ((runScenario (elaborate p).env).tst t).scheduled = true)
-    (hf : ((runScenario (elaborate p).env).tst t).forward = true) :
+    (hs : ((runScenario (elaborate p).env).tst t).scheduled = true) :
     Framed (elaborate p).env (runScenario (elaborate p).env) t r :=
-  team_framed _ (wfCheck_sound _ h) t sel η hel r hr hs hf
+  team_framed _ (wfCheck_sound _ h) t sel η hel r hr hs
 
 end SP.C06
